@@ -3,6 +3,7 @@
    stated).  Induction over the number of trips around the loops (fuel), i.e. over every
    accept / reject history. *)
 From Model Require Import Base Rosenbrock BackwardEulerM.
+From Coq Require Import Ring.
 Local Open Scope nat_scope.
 
 Section RosInvariants.
@@ -711,4 +712,83 @@ Section BEInvariants.
       unfold lsim, bsim. cbn. rewrite E. repeat split; reflexivity.
     Qed.
   End Scratch.
+
+  (* ---------------- C09: backward Euler propagates linear invariants ----------------
+     w . y is the same before and after Solve, whatever the status returned, as long as the clamp at zero did not
+     change w . y in any Newton iteration of the run (the clamp is the one step of the method that is not linear;
+     the premise is read off the trace of the run, it is not an assumption on the clamp for all arguments). *)
+  Section Conservation.
+    Hypothesis Nring : ring_theory (n0 N) (n1 N) (nadd N) (nmul N) (nsub N) (nopp N) eq.
+    Add Ring BERing : Nring.
+    Variable dotw : V -> T.
+    Hypothesis Hforce : forall y z, dotw (forcing y z) = n0 N.      (* C09_forcing_conserves_linear_invariants *)
+    (* forcing -= (Yn1 - Yn) / H element by element: if w.Yn1 = w.Yn and w.f = 0, the residual's weighted sum vanishes *)
+    Hypothesis Hresid : forall H f y1 y0, dotw y1 = dotw y0 -> dotw f = n0 N -> dotw (vresid H f y1 y0) = n0 N.
+    (* an exact solve with I/H - J, w^T J = 0: w.x = H w.rhs *)
+    Hypothesis Hsolve_sep : forall lu rhs, dotw rhs = n0 N -> dotw (solve_sep lu rhs) = n0 N.
+    Hypothesis Hsolve_ip : forall lu rhs, dotw rhs = n0 N -> dotw (solve_ip lu rhs) = n0 N.
+
+    Definition clamp_neutral (e : be_event) : Prop :=
+      match e with
+      | BeIter H y m rhs delta => dotw (vclamp_add y delta) = nadd N (dotw y) (dotw delta)
+      | _ => True
+      end.
+
+    Definition balanced (c : T) (l : be_loop_state) : Prop :=
+      dotw (bYn1 (b_s l)) = c /\ dotw (bYn (b_s l)) = c.
+
+    Lemma be_iter_balanced time_step c l :
+      balanced c l ->
+      match iter time_step l with
+      | inr (l', ev) => Forall clamp_neutral ev -> balanced c l'
+      | inl (st, t, sts, s, ev) => Forall clamp_neutral ev -> dotw (bYn1 s) = c
+      end.
+    Proof.
+      intros [H1 H0].
+      assert (Hd : forall H, dotw (if in_place
+                     then solve_ip (if in_place then factor_ip (add_diag (ndiv N (n1 N) H) (negjac (bYn1 (b_s l)) (mzero (bJac (b_s l)))))
+                                    else add_diag (ndiv N (n1 N) H) (negjac (bYn1 (b_s l)) (mzero (bJac (b_s l)))))
+                            (vresid H (forcing (bYn1 (b_s l)) (vzero (bForcing (b_s l)))) (bYn1 (b_s l)) (bYn (b_s l)))
+                     else solve_sep (if in_place then bLU (b_s l)
+                                     else factor_sep (add_diag (ndiv N (n1 N) H) (negjac (bYn1 (b_s l)) (mzero (bJac (b_s l))))) (bLU (b_s l)))
+                            (vresid H (forcing (bYn1 (b_s l)) (vzero (bForcing (b_s l)))) (bYn1 (b_s l)) (bYn (b_s l)))) = n0 N).
+      { intros H. assert (Hr : dotw (vresid H (forcing (bYn1 (b_s l)) (vzero (bForcing (b_s l)))) (bYn1 (b_s l)) (bYn (b_s l))) = n0 N).
+        { apply Hresid; [rewrite H1, H0; reflexivity | apply Hforce]. }
+        destruct in_place; [apply Hsolve_ip | apply Hsolve_sep]; exact Hr. }
+      assert (Hnew : forall H j rhs delta, dotw delta = n0 N ->
+                 clamp_neutral (BeIter H (bYn1 (b_s l)) j rhs delta) -> dotw (vclamp_add (bYn1 (b_s l)) delta) = c).
+      { intros H j rhs delta Hz HF. cbn in HF. rewrite HF, H1, Hz. ring. }
+      revert H1 H0 Hd Hnew.
+      destruct (iter time_step l) as [[[[[st t] sts] s] ev]|[l' ev]] eqn:E; unfold be_iter in E;
+        repeat match type of E with context [if ?b then _ else _] => destruct b eqn:? end;
+        inversion E; subst; clear E; intros H1 H0 Hd Hnew HF; unfold balanced; cbn [b_s bYn1 bYn];
+        try exact H1; try (apply Forall_app in HF; destruct HF as [HF _]); apply Forall_inv in HF;
+        try (split; [exact H0 | exact H0]);
+        try (split; [|try exact H0]); try (eapply Hnew; [apply Hd | exact HF]).
+    Qed.
+
+    Theorem be_conserves_linear_invariants fuel time_step s :
+      let r := solve fuel time_step s in
+      Forall clamp_neutral (br_trace r) -> dotw (bYn1 (br_s r)) = dotw (bYn1 s).
+    Proof.
+      unfold be_solve. cbv zeta.
+      set (c := dotw (bYn1 s)).
+      match goal with |- context [loop fuel time_step ?l0 []] =>
+        pose proof (be_loop_invariant time_step
+                      (fun l tr => Forall clamp_neutral tr -> balanced c l)
+                      (fun _ _ _ s1 tr => Forall clamp_neutral tr -> dotw (bYn1 s1) = c)) as LI;
+        assert (S1 : forall l tr l' ev, (Forall clamp_neutral tr -> balanced c l) -> iter time_step l = inr (l', ev) ->
+                        Forall clamp_neutral (tr ++ ev) -> balanced c l');
+        [ intros l tr l' ev HI E HF; apply Forall_app in HF; destruct HF as [HF1 HF2];
+          pose proof (be_iter_balanced time_step c l (HI HF1)) as X; rewrite E in X; exact (X HF2) |];
+        assert (S2 : forall l tr st t sts s1 ev, (Forall clamp_neutral tr -> balanced c l) ->
+                        iter time_step l = inl (st, t, sts, s1, ev) -> Forall clamp_neutral (tr ++ ev) -> dotw (bYn1 s1) = c);
+        [ intros l tr st t sts s1 ev HI E HF; apply Forall_app in HF; destruct HF as [HF1 HF2];
+          pose proof (be_iter_balanced time_step c l (HI HF1)) as X; rewrite E in X; exact (X HF2) |];
+        specialize (LI S1 S2 (fun l tr HI HF => proj1 (HI HF)));
+        apply (LI fuel l0 [])
+      end.
+      intros _. split; reflexivity.
+    Qed.
+  End Conservation.
 End BEInvariants.
